@@ -4,23 +4,28 @@ EXTENDS Ingest
 
 \* validator layouts: nv validators, any subset inline, one global token or two, own throttle 1
 Layouts(nvs, gthrs, signeds, subsets, relays) ==
-    { [nv |-> n, inl |-> i, tmo |-> {}, gthr |-> g, vthr |-> 1, signed |-> sg, subs |-> ss, relay |-> rl] :
+    { [nv |-> n, inl |-> i, tmo |-> {}, gthr |-> g, vthr |-> 1, tv1 |-> 0, tv2 |-> 0, signed |-> sg, subs |-> ss, relay |-> rl] :
         n \in nvs, i \in SUBSET (1..NVmax), g \in gthrs, sg \in signeds, ss \in subsets, rl \in relays }
 
 Fits(S) == {c \in S : c.inl \subseteq 1..c.nv}
 
 \* DESIGN C02: validators {1 inline, 2 async}, signed messages, one subscription
-CfgC02 == { [nv |-> 3, inl |-> {1}, tmo |-> {}, gthr |-> 1, vthr |-> 1, signed |-> TRUE, subs |-> Subs, relay |-> FALSE] }
+CfgC02 == { [nv |-> 3, inl |-> {1}, tmo |-> {}, gthr |-> 1, vthr |-> 1, tv1 |-> 0, tv2 |-> 0, signed |-> TRUE, subs |-> Subs, relay |-> FALSE] }
 \* DESIGN C04: every layout of up to NVmax validators, global throttle 1 and 2
 CfgC04 == Fits(Layouts(0..NVmax, {1, 2}, {TRUE}, {Subs}, {FALSE}))
 \* the path without validation (unsigned, no validators), relay only, not interested
 CfgLoop == Fits(Layouts({0}, {1}, {FALSE}, {Subs, {}}, {FALSE, TRUE}))
-CfgOne(n, i, g) == { [nv |-> n, inl |-> i, tmo |-> {}, gthr |-> g, vthr |-> 1, signed |-> TRUE, subs |-> Subs, relay |-> FALSE] }
+CfgOne(n, i, g) == { [nv |-> n, inl |-> i, tmo |-> {}, gthr |-> g, vthr |-> 1, tv1 |-> 0, tv2 |-> 0, signed |-> TRUE, subs |-> Subs, relay |-> FALSE] }
 CfgBugA == CfgOne(2, {1}, 1)        \* one inline + one asynchronous validator
 CfgBugB == CfgOne(2, {}, 2)         \* two asynchronous validators
 \* two ids in the pipeline together: global throttle, per-validator throttle (orphans), full queue
 CfgTwo == CfgOne(2, {1}, 1) \cup CfgOne(2, {}, 2)
 CfgTwoAll == CfgTwo \cup CfgOne(2, {}, 1) \cup CfgOne(2, {1, 2}, 1) \cup CfgOne(2, {2}, 2)
+\* two topics with their own validators next to d default validators (validators d+1, d+2), all inline or all asynchronous
+CfgTopics(ds) == UNION { { [nv |-> d + 2, inl |-> i, tmo |-> {}, gthr |-> 2, vthr |-> 2, tv1 |-> d + 1, tv2 |-> d + 2,
+                              signed |-> TRUE, subs |-> Subs, relay |-> FALSE] : i \in {{}, 1..(d + 2)} } : d \in ds }
+CfgTopics01 == CfgTopics({0, 1})
+CfgTopics1  == CfgTopics({1})
 CfgBugL == Fits(Layouts({0}, {1}, {FALSE}, {Subs}, {FALSE}))
 
 \* monitors that no invariant needs beyond what the visible state already fixes are hidden
